@@ -538,7 +538,10 @@ def evaluate(case, seconds=1.5, min_evals=2e4):
         expected, links = threading_current(scene, geom)
     out.update(value=res.value, expected=expected, err=res.err, scale=scale, links=links)
     if scale == 0.0:
-        out["status"] = "ok"
+        # the field vanishes identically on the surface / loop: fine unless a current is threaded
+        out["status"] = "ok" if expected == 0.0 else "fail"
+        out["rel"] = 0.0 if expected == 0.0 else float("inf")
+        out["thr_rel"] = 0.0
         return out
     if res.err > INCONCLUSIVE * scale:
         out["status"] = "inconclusive"
@@ -643,6 +646,8 @@ def gen_special_case(rng, law, kind):
             ax = 2
         if kind == "Polyline":
             ax = 0
+        if kind == "CylinderSegment" and law == "circ" and src["dimension"][0] == 0.0 and ax == 2:
+            ax = rng.randrange(2)      # general position: with r1 = 0 the z-axis IS an edge of the magnet
         j, l = (ax + 1) % 3, (ax + 2) % 3
         sf = loguniform(rng, 0.2, 5)
         if law == "circ":
@@ -725,6 +730,8 @@ def sweep(ctx, n_per_kind, n_coll, seconds, n_special=0, min_evals=2e4):
             key = (law, res["cut"])
             worst[key] = max(worst.get(key, 0.0), float(res.get("rel", 0.0)))
             ratio = float(res.get("rel", 0.0)) / res["thr_rel"] if res.get("thr_rel") else 0.0
+            if not math.isfinite(ratio):
+                ratio = 0.0
             wr = ctx.extra.setdefault("worst_residual_over_threshold", {})
             name = f"{law}:{'cut' if res['cut'] else 'free'}"
             if ratio > wr.get(name, 0.0):
@@ -973,7 +980,7 @@ def run(ctx):
         run_guarded(ctx, lambda: correspondence(ctx, ctx.n(600, 6000)), "C14 correspondence")
     big = bool(ctx.broken)
     mult = 4 if big else 1
-    run_guarded(ctx, lambda: sweep(ctx, ctx.n(12, 100) * mult, ctx.n(40, 300) * mult, ctx.n(0.5, 1.5),
+    run_guarded(ctx, lambda: sweep(ctx, ctx.n(12, 70) * mult, ctx.n(40, 250) * mult, ctx.n(0.5, 1.5),
                                    ctx.n(3, 20) * mult, ctx.n(2e4, 4e4)),
                 "C14 quadrature sweep")
 
